@@ -658,6 +658,10 @@ def tie_parse_error(chk, r, n, real_parse_errors):
             loc = None
         elif k < 0.25:
             loc = parser_types.SourceLocation()
+        elif k < 0.32:
+            # a location that has no position but knows it is synthetic (write_inference,
+            # symbol_resolver and synthetics._mark_as_synthetic make such locations)
+            loc = parser_types.SourceLocation(is_synthetic=True)
         else:
             a, b = r.randint(1, 9), r.randint(1, 9)
             loc = parser_types.SourceLocation((a, b), (a, b + r.randint(0, 4)), is_synthetic=r.random() < 0.1)
